@@ -38,3 +38,17 @@ func VerifKeyMatch(t reflect.Type, text []byte, chunk int) string {
 }
 
 func VerifFoldTable() [256]byte { return decoder.VerifFoldTable() }
+
+// VerifBuildPath builds a path and renders its nodes: "ok <nodes>", "err" or "panic".
+func VerifBuildPath(text string) (res string) {
+	defer func() {
+		if r := recover(); r != nil {
+			res = "panic"
+		}
+	}()
+	p, err := CreatePath(text)
+	if err != nil {
+		return "err"
+	}
+	return "ok " + decoder.VerifPathNodes(p.path)
+}
